@@ -596,6 +596,73 @@ def rule_deref_closure(em, rep, rid):
     rep.minimum('get_value return sites', n, 5)
 
 
+def rule_constructors_leave_arguments(em, rep, rid):
+    rep.rule(rid, 'the term constructors of the engine (atom, functor, listpair, makelist, variable) do not change the Python '
+                  'objects they are given: no parameter (or a local that stands for it) is the receiver of a mutating method, the '
+                  'target of a subscript store / del, or of an augmented assignment, in the constructor or in a helper it hands the '
+                  'parameter to - a caller that keeps its list and builds a second term from it gets the term the literal denotes')
+    from .rules_extra import MUTATORS
+    mut = set(MUTATORS) | {'reverse', 'sort'}
+    yp = em.repo.cls('engine', 'YP')
+    n = 0
+
+    def changed(f, pname, depth=0):
+        names = {pname}
+        for x in own_nodes_ordered(f.node):
+            if isinstance(x, ast.Assign) and len(x.targets) == 1 and isinstance(x.targets[0], ast.Name) and \
+                    isinstance(x.value, ast.Name) and x.value.id in names:
+                names.add(x.targets[0].id)
+        rebound = False
+        for x in own_nodes_ordered(f.node):
+            # param = list(param) and the like: from here on the name is a private copy; (conservatively) stop looking
+            if isinstance(x, ast.Assign) and any(is_name(t, pname) for t in x.targets) and not is_name(x.value, pname):
+                rebound = True
+        if rebound:
+            return None
+        for x in own_nodes_ordered(f.node):
+            if isinstance(x, ast.Call) and isinstance(x.func, ast.Attribute) and x.func.attr in mut and \
+                    isinstance(x.func.value, ast.Name) and x.func.value.id in names:
+                return f, x
+            tg = []
+            if isinstance(x, ast.Assign):
+                tg = x.targets
+            elif isinstance(x, ast.AugAssign):
+                tg = [x.target]
+                if isinstance(x.target, ast.Name) and x.target.id in names and isinstance(x.op, (ast.Add, ast.Mult)):
+                    return f, x
+            elif isinstance(x, ast.Delete):
+                tg = x.targets
+            for t in tg:
+                if isinstance(t, ast.Subscript) and isinstance(t.value, ast.Name) and t.value.id in names:
+                    return f, x
+            if isinstance(x, ast.Call) and depth < 3:
+                for g in em.cg.resolve_callable(f, x.func):
+                    if g.module is not f.module:
+                        continue
+                    for q in g.params:
+                        a = arg_for_param(x, g, q)
+                        if isinstance(a, ast.Name) and a.id in names:
+                            r = changed(g, q, depth + 1)
+                            if r:
+                                return r
+        return None
+    for name in ('atom', 'functor', 'listpair', 'makelist', 'variable'):
+        f = em.repo.lookup_method(yp, name)
+        if f is None:
+            continue
+        for pname in f.params[1:]:
+            n += 1
+            key = 'YP.%s(%s)' % (name, pname)
+            r = changed(f, pname)
+            if r:
+                g, x = r
+                rep.violation(rid, key, '%s changes the object the caller handed in (%s): the first term is right, but what the caller builds '
+                              'next from the same Python list is another term than the literal denotes' % (g.qname, norm(x)[:50]), g.loc(x))
+            else:
+                rep.ok(rid, key, 'only read', f.loc())
+    rep.minimum('constructor parameters', n, 4)
+
+
 def rule_to_python_siblings(em, rep, rid):
     _note_cell(em)
     rep.rule(rid, 'every to_python implementation reads term-valued fields only through get_value()/to_python() of the component')
